@@ -490,6 +490,20 @@ fn main() {
         }
     };
 
+    // the hypothesis of `parser_total_no_panic` on every real token stream
+    let shape_reqs: Vec<String> = reqs.iter().map(|r| r.replacen("parse", "shape", 1)).collect();
+    let mut shape_bad: Vec<usize> = Vec::new();
+    match driver::run_batch_parallel(&exe, &shape_reqs, threads) {
+        Ok(ans) => {
+            for (i, a) in ans.iter().enumerate() {
+                report.count(&format!("lexer-shape.{a}"));
+                if a != "1" {
+                    shape_bad.push(i);
+                }
+            }
+        }
+        Err(e) => report.notes.push(format!("shape stage not run: {e}")),
+    }
     let mut distinct: HashSet<&str> = HashSet::new();
     let mut oracle_fail: Vec<(usize, String)> = Vec::new();
     let mut mismatches: Vec<usize> = Vec::new();
@@ -541,6 +555,12 @@ fn main() {
                     "rerun": "harness/target/release/c06p --replay <this file>"}),
             );
         }
+    }
+    for i in shape_bad.iter().take(3) {
+        let c = &cases[*i];
+        report.model_disagreements += 1;
+        report.violation("model-mismatch", format!("the real token stream of `{}` does not have the shape the totality theorem assumes", c.src.chars().take(300).collect::<String>()),
+            serde_json::json!({"src": c.src, "stage": "lexer-shape (hypothesis of parser_total_no_panic)", "tokens": reqs[*i]}));
     }
     for i in [0usize, cases.len() / 3, cases.len() / 2, cases.len() - 1] {
         let c = &cases[i];
